@@ -682,7 +682,9 @@ func laneGoroutines() int {
 	}
 	cnt := 0
 	for _, blk := range splitBlocks(string(buf)) {
-		if containsAny(blk, "line.(*Line).popLoop", "mline.(*MultiLine).popLoop", "async.(*RunnerQ).popLoop", "async.(*ProcChan).popLoop", "mline.(*MultiLine).signalDone") {
+		if containsAny(blk, "line.(*Line).popLoop", "mline.(*MultiLine).popLoop", "async.(*RunnerQ).popLoop", "async.(*ProcChan).popLoop", "mline.(*MultiLine).signalDone",
+			// created but not yet run: only the compiler's go-statement wrapper is on the stack
+			"line.(*Line).Run.func", "mline.(*MultiLine).Run.gowrap", "mline.(*MultiLine).stop.gowrap", "async.(*RunnerQ).Run.func", "async.(*ProcChan).Run.func") {
 			cnt++
 		}
 	}
